@@ -208,6 +208,32 @@ fn corpus(quick: bool) -> Vec<Prog> {
             }
         }
     }
+    // thorough: all three-instruction sequences over a reduced alphabet (one per micro-routine family)
+    if !quick {
+        let red: Vec<&(&str, Vec<u8>)> = alpha.iter().filter(|a| ["EI", "PUSH", "POP", "CALL", "RET", "RETI", "DEC((R2+))", "MUL", "DIV", "MOV (R2+),R0", "MOV R1,((R2+))", "BITC", "LDSP", "LDFR", "STOP", "SWI"].contains(&a.0)).collect();
+        for a in &red {
+            for b in &red {
+                for c in &red {
+                    let mut code = a.1.clone();
+                    code.extend(&b.1);
+                    code.extend(&c.1);
+                    code.extend([0x02, 0x20, 0xFE]);
+                    let mut ram = sw::pattern(2);
+                    sw::place(&mut ram, 0x00, &[0x02, 0x02, 0x46, 0x2C]);
+                    sw::place(&mut ram, 0x10, &code);
+                    sw::place(&mut ram, 0x30, &[0x46, 0x17]);
+                    v.push(Prog {
+                        name: format!("{} ; {} ; {}", a.0, b.0, c.0),
+                        case: Case { cpu: starts[0], scratch: (0, 0), ram, inputs: [9, 8, 7, 6], di1: 0 },
+                        stack: free.0,
+                        prog: free.1,
+                        int_enabled: true,
+                        run_edges: 110,
+                    });
+                }
+            }
+        }
+    }
     // supervised programs that halt by SP / PC rule in the middle of an instruction
     for (name, code, stack, prog, sp) in [
         ("push into band", vec![0x10u8, 0x10, 0x10, 0x20, 0xFB], Stacksize::_16, Programsize::Size(255), 0xE1u8),
@@ -553,7 +579,7 @@ pub fn run() {
     ctx.set("distinct_nontrivial", all.hist.len() as u64 + hang_undefined.len() as u64);
     ctx.set("rule", "state = real machine after e clock edges into a corpus program (e = 0..run length), x {interrupt just triggered, not} x {Real, Assembly mode}; at each state one (every 7th: three) assembly step(s) on a clone must equal the specification twin clocked edge by edge (whole-Machine equality modulo the mode flag); distinct_nontrivial = distinct step lengths (10-edge buckets) + predicted non-returning opcode cases");
     ctx.set("exhaustive", true);
-    ctx.set("bounds", format!("{} corpus programs (all ordered pairs of a 35-instruction alphabet from {} start state(s) + 4 supervised programs), every edge 0..70/120; termination: all 256 first bytes and 4 x 256 second bytes, first three steps; twin bound 4096 edges with exact state-cycle detection", progs.len(), if quick { 1 } else { 2 }));
+    ctx.set("bounds", format!("{} corpus programs (all ordered pairs of a 35-instruction alphabet from {} start state(s), thorough: all triples of a 16-instruction alphabet, + 4 supervised programs), every edge 0..70/110/120; termination: all 256 first bytes and 4 x 256 second bytes, first three steps; twin bound 4096 edges with exact state-cycle detection", progs.len(), if quick { 1 } else { 2 }));
     let mut h = Json::obj();
     for (k, v) in &all.hist {
         h.set(&format!("{}-{}", k, k + 9), *v);
